@@ -1529,11 +1529,6 @@ class _Ops:
         y = self._new_from(x, r, hid, how, buf=x.buf if how in ("grid", "data", "condition") else buf)
         if how in ("grid", "data", "condition"):
             self.set_cleared(y, "acc:" + how)
-        if how == "condition" and x.is_comp:
-            # a shallow copy of a composite shares its member objects: they were re-conditioned as well
-            # (whether the accessor may do that to the receiver is property C15's question, decided by frame-sim)
-            self.mark_pairs(x, True, "condition_")
-            self.related_unknown(y)
         if how in ("grid", "data") and kind_of(t) == "P":
             for st in self.st.values():
                 if st.comp == x.comp and st.obj is not y.obj and not isinstance(st.obj, CompositeTransform):
